@@ -60,4 +60,15 @@ def insertKV {N} (k : Bytes) (v : Value N) : List (Bytes × Value N) → List (B
     else if keyLt k k' then (k, v) :: (k', v') :: rest
     else (k', v') :: insertKV k v rest
 
+/-! ## IEEE 754 binary64 interchange format: fields of a bit pattern -/
+
+def dblNeg (bits : Nat) : Bool := bits / 2 ^ 63 % 2 == 1
+def dblExpField (bits : Nat) : Nat := bits / 2 ^ 52 % 2048
+def dblFrac (bits : Nat) : Nat := bits % 2 ^ 52
+/-- significand as an integer -/
+def dblMant (bits : Nat) : Nat := if dblExpField bits = 0 then dblFrac bits else dblFrac bits + 2 ^ 52
+/-- exponent of the last significand bit -/
+def dblExp2 (bits : Nat) : Int := if dblExpField bits = 0 then -1074 else (dblExpField bits : Int) - 1075
+
+
 end Cppcms.C11
